@@ -10,7 +10,10 @@ import os
 import subprocess
 import sys
 
-EXTRA = """Additional guidance for this round: earlier rounds concentrated on single-line slips in the most obvious function. Prefer now (a) changes in code that is reached only through a particular combination (a Chain of two key sources, a key source wrapped twice, an iterator that was rooted AND depth-limited, a target with just-insufficient capacity, a type whose child count sits exactly on a power of two or of ten, multi-byte separators, a response split over several messages), (b) changes that need TWO cooperating edits in different functions or files that each look like a harmless refactoring, (c) changes whose effect depends on the order of a multi-step history or on runtime state, (d) changes in glue code around the core (conversions between key representations, From/TryFrom impls, default trait methods, the derive macro's generated lookup tables and metadata). Avoid anything resembling the ideas listed below."""
+EXTRA_DEFAULT = """Additional guidance for this round: earlier rounds concentrated on single-line slips in the most obvious function. Prefer now (a) changes in code that is reached only through a particular combination (a Chain of two key sources, a key source wrapped twice, an iterator that was rooted AND depth-limited, a target with just-insufficient capacity, a type whose child count sits exactly on a power of two or of ten, multi-byte separators, a response split over several messages), (b) changes that need TWO cooperating edits in different functions or files that each look like a harmless refactoring, (c) changes whose effect depends on the order of a multi-step history or on runtime state, (d) changes in glue code around the core (conversions between key representations, From/TryFrom impls, default trait methods, the derive macro's generated lookup tables and metadata). Avoid anything resembling the ideas listed below."""
+
+
+EXTRA = os.environ.get("MUT_EXTRA") or EXTRA_DEFAULT
 
 
 def main():
